@@ -456,7 +456,8 @@ def closure_oracle(spec):
 # ---------------------------------------------------------------------------------------------- malformed requests
 MAL = ['dup_names', 'nonstring_name', 'nonstring_single', 'unsorted_idl', 'duplicate_idl', 'descending_range', 'len_mismatch_idl',
        'len_mismatch_names', 'len_mismatch_idl_count', 'few_samples', 'multi_ensemble', 'cov_name_sep', 'cov_asym', 'cov_indef',
-       'cov_nonsquare', 'merge_duplicate', 'cov_means_count', 'cov_asym_grad', 'cov_indef_grad', 'covobs_asym_grad', 'covobs_indef', 'cov_asym_tiny', 'multi_ensemble_prefix', 'merge_multi_ensemble']
+       'cov_nonsquare', 'merge_duplicate', 'cov_means_count', 'cov_asym_grad', 'cov_indef_grad', 'covobs_asym_grad', 'covobs_indef', 'cov_asym_tiny', 'multi_ensemble_prefix', 'merge_multi_ensemble',
+       'reversed_idl', 'descending_list', 'cov_negative_variance']
 
 
 @st.composite
@@ -508,6 +509,18 @@ def malformed_oracle(spec):
             step = 1 + k % 3
             idl[c0] = range(100 + step * n, 100, -step)
             return pe.Obs(samples, names, idl=idl)
+        if kind == 'reversed_idl':
+            # the chain's own configuration numbers in decreasing order (equally spaced or not), as list or array
+            il = list(reversed(ch[c0]['idl']))
+            idl[c0] = il if k % 2 else np.array(il)
+            return pe.Obs(samples, names, idl=idl)
+        if kind == 'descending_list':
+            # strictly decreasing with constant step, given as list / array (not as a range object)
+            n = len(ch[c0]['idl'])
+            step = 1 + k % 4
+            il = list(range(7 + step * n, 7, -step))
+            idl[c0] = il if (k // 4) % 2 else np.array(il)
+            return pe.Obs(samples, names, idl=idl)
         if kind == 'len_mismatch_idl':
             il = list(ch[c0]['idl'])
             idl[c0] = il + [il[-1] + 1 + k % 3] if k % 2 else il[:-1]
@@ -545,6 +558,17 @@ def malformed_oracle(spec):
             return pe.covobs.Covobs(1.0, [[1.0, 0.2 + spec['x'] * 0.01], [0.2, 1.0]], 'sys', grad=[1.0, 0.5])
         if kind == 'covobs_indef':
             return pe.covobs.Covobs(1.0, [[1.0, 1.0 + spec['x']], [1.0 + spec['x'], 1.0]], 'sys', pos=0)
+        if kind == 'cov_negative_variance':
+            # an indefinite covariance in the scalar and in the 1-d (list of variances) layout
+            v = -spec['x'] * 10.0 ** (-(k % 6))
+            form = k % 4
+            if form == 0:
+                return pe.cov_Obs(1.0, v, 'sys')
+            if form == 1:
+                return pe.cov_Obs([1.0, 2.0, 0.5], [0.1, v, 0.3] if (k // 4) % 2 else [v, 0.2, 0.3], 'sys')
+            if form == 2:
+                return pe.covobs.Covobs(1.0, v, 'sys')
+            return pe.covobs.Covobs(1.0, np.array([0.2, v]), 'sys', pos=k % 2)
         if kind == 'cov_asym_tiny':
             # asymmetric well above rounding (relative 1e-6 .. 1e-5) but small
             eps = (1.0 + k % 9) * 1e-6
